@@ -12,12 +12,15 @@ ValV == SS(<<118>>)
 Det(prefix, n) == [name |-> n, body |-> [kind |-> "map", items |-> <<[field |-> prefix \o n, chain |-> <<>>, vals |-> <<ValV>>, single |-> TRUE]>>,
                                          maps |-> <<>>, vals |-> <<>>]]
 RP == <<82, 95>>   FP == <<70, 95>>     \* field prefixes R_ / F_ make the provenance of every predicate visible
-RuleNames == <<n_sel, n_filter, n_sel_a, n_notable>>
+n_ua == <<95,97>>       \* _a : a detection of the rule whose name starts with an underscore
+RuleNames == <<n_sel, n_filter, n_sel_a, n_notable, n_ua>>
 FilterNames(fam) == <<n_sel, n_1x, IF fam = 1 THEN n_ax ELSE n_usx, n_And, n_notable>>
 RuleConds == {CId(n_sel), CSel("1", <<115,101,108,42>>), CSel("all", S_them), CBin("cand", CId(n_sel), CNot(CId(n_filter))),
               CSel("1", <<42,95,97>>), CBin("cor", CId(n_notable), CId(n_sel_a)),
               \* leading wildcards (would reach into the filter's renamed detections if the underscore rule failed)
-              CSel("1", <<42>>), CSel("all", <<42,108>>), CSel("1", <<42,101,42>>)}
+              CSel("1", <<42>>), CSel("all", <<42,108>>), CSel("1", <<42,101,42>>),
+              \* a pattern that starts with an underscore (the only way to select underscore names)
+              CSel("1", <<95,42>>), CBin("cand", CId(n_sel), CNot(CSel("1", <<95,42>>)))}
 FilterConds == {CId(n_sel), CNot(CId(n_sel)), CSel("1", S_them), CSel("all", <<115,101,42>>), CSel("any", <<42,120>>),
                 CBin("cand", CId(n_And), CNot(CId(n_1x))), CNot(CSel("1", <<110,111,116,42>>))}
 cat1 == <<99,49>> cat2 == <<99,50>> prod1 == <<112,49>> prod2 == <<112,50>> svc1 == <<115,49>>
